@@ -31,7 +31,7 @@ CHECKS = {
     "C02": (
         True,
         "Lean 4 proof of the splice theorem (any alphabet, any target line) and of the single-field write statement + exhaustive small-space correspondence (kinds x size 0-6 x start 0-6 x target length 0-14 x value widths) against Field.write / Line.write",
-        'Theorems Props.C02.splice_spec (length, untouched prefix/suffix, span = value, position-wise), field_write_basic (missing values, literals, integers: full statement for every width/start/target), field_write_of_raw (floats/dates given the character shape of the rendering), field_write_bin (bytes), line_shape / line_spans and line_bin_shape / line_bin_spans (whole text and binary lines of any disjoint layout: length = furthest field end (+ newline), blank gaps, every rendering in its own span), defaults (documented default geometry = constants regenerated from the code; a changed default breaks the build). Exhaustive enumeration of the small space every run; a user sub-subclass extending the numeric type table is checked structurally (mode field_struct).',
+        'Theorems Props.C02.splice_spec (length, untouched prefix/suffix, span = value, position-wise), field_write_basic (missing values, literals, integers: full statement for every width/start/target), field_write_of_raw (floats/dates given the character shape of the rendering), Props.C02.shape_dom / field_write_dom / line_write_dom (Props/C02F.lean: that shape, the single-field statement and the whole of Spec.C02.holdsLine for every value of the decidable domain of C01, floats in either notation and dates included), field_write_bin (bytes), line_shape / line_spans and line_bin_shape / line_bin_spans (whole text and binary lines of any disjoint layout: length = furthest field end (+ newline), blank gaps, every rendering in its own span), defaults (documented default geometry = constants regenerated from the code; a changed default breaks the build). Exhaustive enumeration of the small space every run; a user sub-subclass extending the numeric type table is checked structurally (mode field_struct).',
         "Trusted: Lean kernel + standard axioms; model lean/Cfi/Field.lean tied by the correspondence; Generated.lean is regenerated from the code each run.",
         "6/C02",
     ),
